@@ -259,13 +259,16 @@ CallNo(a) ==   \* no_cache: look in archive, compute, dump everything, clear
 
 CallUnkey(a) ==  \* safe decorators: arguments that cannot be keyed -> plain evaluation
   /\ SAFE
-  /\ stats' = Bump(stats, 2, 1)
-  /\ IF EffAlg = "no" /\ Size(mem) > 0
-     THEN /\ mem' = Zero                                    \* the trailing purge block still runs
-          /\ archs' = WithArch(cur, IF Archived(cur) THEN Overlay(Arch(cur), mem) ELSE Arch(cur))
-     ELSE UNCHANGED <<mem, archs>>
-  /\ UNCHANGED <<cur, swap, queue, refc, ucnt, uord>>
-  /\ Finish(Event("call", Ret(a, FOf[a], "none", <<a>>)))
+  /\ IF EffAlg = "no" /\ Archived(cur) /\ "safe_no_load_outside_try" \in Deviations
+     THEN /\ UNCHANGED <<mem, archs, cur, swap, stats, queue, refc, ucnt, uord>>
+          /\ Finish(Event("call", Ret(a, 0, "TypeError", <<>>)))
+     ELSE /\ stats' = Bump(stats, 2, 1)
+          /\ IF EffAlg = "no" /\ Size(mem) > 0
+             THEN /\ mem' = Zero                                    \* the trailing purge block still runs
+                  /\ archs' = WithArch(cur, IF Archived(cur) THEN Overlay(Arch(cur), mem) ELSE Arch(cur))
+             ELSE UNCHANGED <<mem, archs>>
+          /\ UNCHANGED <<cur, swap, queue, refc, ucnt, uord>>
+          /\ Finish(Event("call", Ret(a, FOf[a], "none", <<a>>)))
 
 Call(a) == IF KindOf[a] = "unkey" THEN CallUnkey(a)
            ELSE IF EffAlg = "no" THEN CallNo(a) ELSE CallBounded(a)
@@ -365,8 +368,10 @@ LruQueueCoversResident ==
 LruRefcountIsMultiplicity ==
    (EffAlg = "lru") => \A k \in 1..NK : refc[k] >= 0 => refc[k] = Cardinality({p \in 1..Len(queue) : queue[p] = k})
 LruQueueBounded == EffAlg = "lru" => Len(queue) <= MAXSIZE * QMULT
-MruQueueIsResident ==
-   (EffAlg = "mru" /\ ~g.taint) => ToSet(queue) = Dom(mem) /\ Len(queue) = Size(mem)
+MruQueueIsResident ==   \* (a purge leaves the purged call's key in the queue: harmless, it is never on top at an overflow)
+   (EffAlg = "mru" /\ ~g.taint) => Dom(mem) \subseteq ToSet(queue)
+MruTopIsResident ==
+   (EffAlg = "mru" /\ ~g.taint /\ Size(mem) > 0) => queue # <<>> /\ queue[Len(queue)] \in Dom(mem)
 LfuCountsAreResident ==
    (EffAlg = "lfu" /\ ~g.taint) => {k \in 1..NK : ucnt[k] # 0} = Dom(mem) /\ ToSet(uord) = Dom(mem)
 GhostUsesMatch ==
